@@ -1,4 +1,5 @@
 """C11 - token-bucket output conforms to (rate, bucket) and delays nothing needlessly (TokenBucket, TwoRateTokenBucket)."""
+from vlib.util import guarded_leg
 import random, collections, json, math
 from onl.sim import Environment
 from onl.netdev import TokenBucket, TwoRateTokenBucket
@@ -353,6 +354,7 @@ def oracle_one(c, run):
 
 
 # ---- BEGIN tbk leg: the TokenBucket as a process on the kernel MODEL (lean/OnlVerif/Net/TBOnK.lean, driver mode `tbk`) ----
+@guarded_leg(None)
 def run_tbk(ctx, res=None):
     """Extra leg for Props/C11K.lean: the K program of the TokenBucket (run / put + a source process), run at Float by the
     compiled driver, against the real TokenBucket with a real source process on the real kernel under env.run() (public API only),
@@ -486,6 +488,7 @@ def run_tbk(ctx, res=None):
 
 
 # ---- BEGIN trk leg: the TwoRateTokenBucket as a process on the kernel MODEL (lean/OnlVerif/Net/TwoRateOnK.lean, driver mode `trk`) ----
+@guarded_leg(None)
 def run_trk(ctx, res=None):
     """Extra leg for Props/C11K2.lean: the K program of the TwoRateTokenBucket (run / put + a source process), run at Float by the
     compiled driver, against the real TwoRateTokenBucket with a real source process on the real kernel under env.run() (public API
